@@ -60,6 +60,10 @@ def run(ctx):
         stores.append((pipe.single(gen.token_soup(rng, rng.randrange(0, 120))), "a.s", "soup"))
     for _ in range(80 * k):
         stores.append((pipe.single(gen.raw_unicode(rng, rng.randrange(0, 80))), "a.s", "raw"))
+    for _ in range(25 * k):          # called helpers that never return (exit / spin), with values live across the call
+        stores.append((pipe.single(gen.noreturn_prog(rng)), "a.s", "noreturn"))
+    for _ in range(15 * k):
+        stores.append((gen.stopping_tree(rng)[0], "a.s", "stoptree"))
     edge = ["." * 300000, "\n" * 20000, "'" * 5000, "\"" * 5000, "#" * 100000, "a" * 200000, "0x" + "f" * 100000, "-" * 100000,
             "li t0, " + "9" * 5000 + "\n", ("x: " * 3000) + "\n", ".word " + "1 " * 20000 + "\n", "(" * 50000, ".macro\n" * 2000,
             "li t0, 0x7fffffff\naddi t0, t0, 1\nslli t1, t0, 32\nli t2, -0x80000000\nli t3, -1\ndiv t4, t2, t3\nrem t5, t2, t3\n",
@@ -204,6 +208,15 @@ def run(ctx):
         samples=[dict(kind=stores[i][2], files=str(stores[i][0])[:300]) for i in (len(stores) - 3, len(stores) // 2)],
         outcomes=hist, input_classes=tags, cli_runs=cli_runs, correspondence_disagreements=len(dis), exhaustive=False)
     fresh = []
+    # a hang is the recorded finding only when the MODEL of the same pass does not terminate on that input either (the
+    # fixed-point iteration as written oscillates); an input on which the model terminates and the code does not is new
+    hangs = [f for f in failing if f.get("cls") in known_classes and isinstance(f.get("files"), list) and size(f["files"]) <= 6000]
+    if hangs:
+        mo = lib.run_model(ctx, [lib.store_cmd("diag -", f["files"], f["base"]) for f in hangs], tag="hang-model")
+        for f, o in zip(hangs, mo):
+            if o.strip() != "TIMEOUT":
+                f["cls"] = f["cls"] + " although the model of the pass terminates on this input"
+                f["why"] += " - and the model terminates: %s" % o[:120]
     for f in failing:
         if f.get("cls") in known_classes:
             line = "%s: %s" % (f["cls"], [x["what"] for x in known if x["class"] == f["cls"]][0][:160])
